@@ -71,7 +71,7 @@ def build(r):
             setattr(o, kk, build(v))
         return o
     if k == "named_obj":
-        return type(r[1], (), {})()
+        return type(r[1], (), {"__repr__": lambda self: "<%s instance>" % type(self).__name__})()
     if k == "exc":
         return {"ValueError": ValueError, "KeyError": KeyError, "Exception": Exception}[r[1]](r[2])
     if k == "exccls":
